@@ -90,6 +90,8 @@ def cases(ctx):
     for i in range(ctx.per_shard(ctx.pick(16, 600))):
         yield {"kind": "twin", "cls": rng.choice(["numeric", "hex"]), "clear_first": rng.random() < 0.5,
                "rseed": rng.getrandbits(32), "salt": rng.choice(["saltForTest", "Q", "n1"])}
+    for i in range(ctx.per_shard(ctx.pick(40, 2000))):
+        yield {"kind": "twohash", "rseed": rng.getrandbits(32), "salt": rng.choice(["saltForTest", "Q", "n1", "_x"]), "order": rng.choice(["19", "91", "11", "99"])}
     combos = [(f["id"], c) for f in REPLACE_FORMS for c in f["classes"]]
     reps = ctx.pick(30, 2400)
     i = 0
@@ -111,6 +113,44 @@ def cases(ctx):
                    "t7_any": rng.random() < 0.5, "u_is_secret": rng.random() < 0.2,
                    # the format must hold for the n-th secret of a run as for the first
                    "warm": rng.choice([0, 0, 0, 0, 0, 3, 12, 12, 30, 110 if rng.random() < 0.3 else 12, 1050 if rng.random() < 0.02 else 0])}
+
+
+_HASHTOK = re.compile(r"\$[169]\$[^\s;\"]+")
+
+
+def _twohash(ctx, case):
+    """A line without any keyword that carries TWO hash-shaped tokens (of different or equal kinds).  Which of them the
+    catch-all patterns replace is C07's subject; here: whatever stands at either position afterwards is the original or a
+    replacement of the SAME kind."""
+    nc = load.nc()
+    rng = random.Random(case["rseed"])
+    secs = []
+    for ch in case["order"]:
+        cls = "md5" if ch == "1" else "j9"
+        sec = S.gen_secret(rng, cls)
+        if cls == "j9":
+            sec["text"] = S.j9_occurrence(rng, sec)[0]
+        secs.append((cls, sec["text"]))
+    line = rng.choice(['login-hash "%s"; tunnel-psk "%s";', "%s %s", 'a "%s" b "%s" c', "hash %s; other %s;"]) % (secs[0][1], secs[1][1])
+    fa = nc.af.FileAnonymizer(anon_pwd=True, anon_ip=False, salt=case["salt"])
+    out = io.StringIO()
+    fa.anonymize_io(io.StringIO(line + "\n"), out)
+    got = out.getvalue()
+    ctx.ev()
+    ctx.count("two_hash_lines")
+    toks = _HASHTOK.findall(got)
+    if len(toks) != 2:
+        ctx.violation(case, "context-changed:two-hash-line", "line %r became %r (expected two hash-shaped tokens)" % (line, got))
+        return
+    for (cls, orig), rep in zip(secs, toks):
+        if rep == orig:
+            continue
+        ctx.count("replacements_decoded")
+        why = check_format(cls, orig, rep)
+        if why:
+            ctx.violation(case, "format:class=%s" % cls, "on the two-hash line %r -> %r the %s token %r became %r: %s" % (line, got, cls, orig, rep, why))
+            return
+    ctx.distinct(("twohash", case["order"], case["salt"], line[:12]))
 
 
 def check_format(cls, orig, rep):
@@ -183,6 +223,8 @@ def check_case(ctx, case):
         from .. import suite_workload
 
         return suite_workload.run_for(ctx)
+    if case["kind"] == "twohash":
+        return _twohash(ctx, case)
     if case["kind"] != "one":
         raise HarnessError("unknown kind")
     install_contract()
